@@ -54,7 +54,9 @@ KindMayDrop(k, flda) == k = "export" \/ (k = "ft_drop" /\ flda)
 ChainFrame(chain) == UNION {Frame(k) : k \in Range(chain)}
 MayFillExt(chain) == Range(chain) \cap Decoders # {}
 Allowed(chain, hadExt, hasExt) == ChainFrame(chain) \cup (IF MayFillExt(chain) /\ ~hadExt /\ hasExt THEN ExtFields ELSE {})
-MayDrop(chain, flda) == \E k \in Range(chain) : KindMayDrop(k, flda)
+\* (written without a quantifier: inside an action TLC enumerates the witnesses of an \E as alternatives - with several
+\*  dropping kinds in the chain a "\A q : MayDrop(..)" over n inputs became 2^n identical successors)
+MayDrop(chain, flda) == "export" \in Range(chain) \/ ("ft_drop" \in Range(chain) /\ flda)
 
 \* pseudonym tables: sets of <<name space, original id, pseudonym, nr>>; nr = the entry was the nr-th new id of its
 \* name space.  The code numbers pseudonyms <letter><nr as decimal, at least 3 digits> and cuts the text to the 4 characters
